@@ -758,7 +758,8 @@ class RotationImplemented(BaseAlignmentModel):
         xp = backend or Backend()
         if out := self._template_mask_cache.get(xp):
             return out
-        if self._n_rotations > 1:
+        # NOTE: a single searched rotation must also be applied unless it is identity.
+        if self._n_rotations > 1 or np.any(self.quaternions[0][:3] != 0):
             rotators = [Rotation.from_quat(r).inv() for r in self.quaternions]
             matrices = compose_matrices(
                 np.array(self._template.shape[-3:]) / 2 - 0.5, rotators
@@ -820,6 +821,9 @@ class RotationImplemented(BaseAlignmentModel):
             )
             template_input = xp.stack(_templates, axis=0)  # type: ignore
             mask_input = xp.stack(_masks, axis=0)  # type: ignore
+            if not self._is_multiple():
+                # single rotation, single template ... 3D
+                template_input, mask_input = template_input[0], mask_input[0]
         else:
             pool = DaskTaskPool.from_func(self.pre_transform)
             if self._n_templates > 1:
